@@ -73,11 +73,42 @@ def lca_downsample(chk, pkg):
     chk.cov["lca_downsample_cases"] = k
 
 
+def gather_mixed(chk, pkg):
+    """gather over databases whose scaled differs from the query's (and from each other's): the comparison scaled
+    coarsens during the run and every counter / candidate is downsampled implicitly; the run must succeed and
+    report what explicit downsampling gives (seeded C03e: a candidate memoised at the finer scaled raised
+    ValueError in a later round).  Reuses the C07 gather stream (adapter, driver, accounting oracle) on its
+    mixed / coarser / finer flavours."""
+    from streams import gather
+    n = 150 if chk.tier == "quick" else 2000
+    cases = [gather.gen_case(chk.rng, ["mixed", "coarser", "finer"][i % 3]) for i in range(n)]
+    res = streamlib.run_cases(gather, cases, pkg, procs=16)
+    k = 0
+    for case, impl, model, crash in res:
+        chk.cov["evaluations"] += 1
+        if crash is not None:
+            chk.add_violation("crash", "C03:gather:adapter-crash", "real code died on a mixed-scaled gather case", {"case": case})
+            continue
+        chk.cov["traces_validated_against_impl"] += 1
+        k += 1
+        for idx, sig, msg in gather.oracle(case, impl):
+            if sig.startswith("skip:"):
+                continue
+            # only failures of the implicit downsampling itself; accounting and threshold findings keep their C07 identity
+            if "mixed-scaled-gather-raises" in sig or "mismatch" in sig or "scaled" in sig.split(":", 1)[1]:
+                if any(t in sig for t in ("D6", "threshold", "f_unique", "fractions")):
+                    continue
+                chk.add_violation("oracle", "C03:implicit-downsample-in-gather:" + sig.split(":", 1)[1], msg,
+                                  {"case": case[:idx + 1], "impl": impl[:idx + 1], "op_index": idx})
+    chk.cov["gather_mixed_cases"] = k
+
+
 def extra(chk, pkg):
     """quick+thorough: index-level implicit downsampling, LCA database downsampling; thorough: the contiguous sweep
     1..2^21 on the implementation against the model"""
     implicit_in_indexes(chk, pkg)
     lca_downsample(chk, pkg)
+    gather_mixed(chk, pkg)
     if chk.tier != "thorough":
         return
     import random
